@@ -476,6 +476,17 @@ func (r *Rows) ColumnTypeScanType(i int) reflect.Type {
 		if m.nullable {
 			return scanNullInt
 		}
+		if m.unsigned {
+			switch m.typ {
+			case TTinyInt:
+				return reflect.TypeOf(uint8(0))
+			case TSmallInt:
+				return reflect.TypeOf(uint16(0))
+			case TBigInt:
+				return reflect.TypeOf(uint64(0))
+			}
+			return reflect.TypeOf(uint32(0))
+		}
 		switch m.typ {
 		case TTinyInt:
 			return scanInt8
